@@ -7,6 +7,7 @@ open Datatypes
 
 let leqb = PeanoNat.Nat.eqb
 let thr = ref 32
+let max_script = ref 1200
 
 let kind_of (k : string) (num : int) (den : int) : Dynamic.dkind option =
   match k with
@@ -39,6 +40,10 @@ let run_case (c : case) =
   let kind = ref None in
   let state = ref None in            (* (solver, prog state) *)
   let stopped = ref false in
+  (* Sat.Prog.solve hands the oracle [List.rev] of the clause list (quadratic in Coq's stdlib): a
+     session with thousands of solve calls - only a run-away loop of the implementation produces one
+     within these histories - is not replayed; the oracle judges such a case on its own *)
+  if Stdlib.List.length script > !max_script then begin out "skipped-long-script"; stopped := true end;
   let start k =
     match k with
     | None -> out "not-modelled"; stopped := true
